@@ -49,6 +49,74 @@ func c09Accounts(p *load.Prog, r *oblig.Run) {
 		c, ok := v.(*ssa.Call)
 		return ok && c.Call.IsInvoke() && c.Call.Method.Name() == "Nodes" && loop.elementOf(c.Call.Value)
 	}
+	// helperMerges: h(.., child, ..) bool merges the child into an equal child exactly when it answers true: every
+	// path to `return true` merges the children of the parameter with MergeNodeSlices and stores the result with
+	// SetNodes, every path to `return false` does neither
+	helperMerges := func(c *ssa.Call) bool {
+		h := c.Call.StaticCallee()
+		if h == nil || !p.IsRepoFunc(h) || len(h.Blocks) == 0 || h == mn || h.Signature.Results().Len() != 1 {
+			return false
+		}
+		var prm *ssa.Parameter
+		for i, a := range c.Call.Args {
+			if loop.elementOf(a) && i < len(h.Params) {
+				prm = h.Params[i]
+			}
+		}
+		if prm == nil {
+			return false
+		}
+		prmKids := func(v ssa.Value) bool {
+			k, ok := v.(*ssa.Call)
+			return ok && k.Call.IsInvoke() && k.Call.Method.Name() == "Nodes" && k.Call.Value == ssa.Value(prm)
+		}
+		hp, capped := simplePaths(h.Blocks[0], map[*ssa.BasicBlock]bool{}, 2000)
+		if capped {
+			return false
+		}
+		nTrue := 0
+		for _, path := range hp {
+			last := path[len(path)-1]
+			ret, ok := last.Instrs[len(last.Instrs)-1].(*ssa.Return)
+			if !ok || len(ret.Results) != 1 || !pathConstFeasible(path) {
+				continue
+			}
+			val, known := evalBoolOnPath(ret.Results[0], path, len(path)-1)
+			if !known {
+				return false
+			}
+			merged, stored := 0, 0
+			var vals []ssa.Value
+			for _, b := range path {
+				for _, ins := range b.Instrs {
+					k, ok := ins.(*ssa.Call)
+					if !ok {
+						continue
+					}
+					switch {
+					case k.Call.StaticCallee() == ms && len(k.Call.Args) >= 2 && (prmKids(k.Call.Args[0]) || prmKids(k.Call.Args[1])):
+						merged++
+						vals = append(vals, k)
+					case k.Call.IsInvoke() && k.Call.Method.Name() == "SetNodes" && len(k.Call.Args) == 1:
+						for _, mv := range vals {
+							if k.Call.Args[0] == mv {
+								stored++
+							}
+						}
+					}
+				}
+			}
+			if val {
+				nTrue++
+				if merged != 1 || stored != 1 {
+					return false
+				}
+			} else if merged != 0 {
+				return false
+			}
+		}
+		return nTrue > 0
+	}
 	paths, capped := simplePaths(loop.body, map[*ssa.BasicBlock]bool{loop.header: true}, 4000)
 	if capped {
 		r.Add("R09.e", "iteration paths", p.Pos(mn.Pos()), "paths").Unknown("more than 4000 paths through the loop body")
@@ -83,6 +151,24 @@ func c09Accounts(p *load.Prog, r *oblig.Run) {
 				}
 				cc := &c.Call
 				switch {
+				case helperMerges(c):
+					// the helper merged the child iff it answered true: which side does the path take?
+					if iff, ok := b.Instrs[len(b.Instrs)-1].(*ssa.If); ok && i+1 < len(path) {
+						cond, neg := iff.Cond, false
+						if u, isNot := cond.(*ssa.UnOp); isNot && u.Op == token.NOT {
+							cond, neg = u.X, true
+						}
+						if cond == ssa.Value(c) {
+							tookTrue := path[i+1] == b.Succs[0]
+							if tookTrue != neg {
+								merged++
+								stored++
+							}
+							continue
+						}
+					}
+					// the answer is not branched on here: count it as a merge that may or may not have happened
+					merged += 2
 				case cc.StaticCallee() == ms && len(cc.Args) >= 2 && (childKids(cc.Args[0]) || childKids(cc.Args[1])):
 					merged++
 					mergedVals = append(mergedVals, c)
